@@ -4,6 +4,7 @@ package main
 //
 //	st <c|s> <planAB> <planBA> <pseed> <T.seed[w]>*        one endpoint streams messages
 //	rr <depth> <planAB> <planBA> <pseed> <T.seed/T.seed>*  pipelined request/response
+//	bk <planAB> <planBA> <pseed> <L.seed>*                 real block-fetch batch (MsgBlock contents)
 //
 // Two real protocol.Protocol endpoints (custom state map, raw CBOR messages of exact sizes)
 // over two real muxers over a connection that fragments reads by the plans and records writes.
@@ -18,6 +19,8 @@ import (
 	"time"
 
 	"github.com/blinklabs-io/gouroboros/protocol"
+	"github.com/blinklabs-io/gouroboros/protocol/blockfetch"
+	pcommon "github.com/blinklabs-io/gouroboros/protocol/common"
 )
 
 func init() {
@@ -56,6 +59,12 @@ func parseC10Msg(s string, typ byte) (c10Msg, bool) {
 
 func runC10(op string) string {
 	f := strings.Fields(op)
+	if len(f) < 4 {
+		return "bad-op"
+	}
+	if f[0] == "bk" {
+		return runC10Blocks(f)
+	}
 	if len(f) < 5 {
 		return "bad-op"
 	}
@@ -252,6 +261,90 @@ func runC10(op string) string {
 	return "bad-op"
 }
 
+// runC10Blocks: real block-fetch messages (real MarshalCBOR / NewMsgFromCbor / state map).
+//
+//	bk <planAB> <planBA> <pseed> <L.seed>*   one batch of blocks with the given contents
+
+func runC10Blocks(f []string) string {
+	planAB, ok1 := parseNatListG4(f[1])
+	planBA, ok2 := parseNatListG4(f[2])
+	pseed, e := strconv.ParseUint(f[3], 10, 64)
+	if !ok1 || !ok2 || e != nil {
+		return "bad-op"
+	}
+	contents := [][]byte{}
+	for _, s := range f[4:] {
+		p := strings.Split(s, ".")
+		if len(p) != 2 {
+			return "bad-op"
+		}
+		l, e1 := strconv.Atoi(p[0])
+		sd, e2 := strconv.ParseUint(p[1], 10, 64)
+		if e1 != nil || e2 != nil || l < 0 || l > 16<<20 {
+			return "bad-op"
+		}
+		contents = append(contents, genBytesG4(l, sd))
+	}
+	connC, connS := g4Pair(planAB, planBA, true, true)
+	connC.out.sink, connS.out.sink = true, true
+	connC.perturb = NewRand(pseed ^ 0xa5a5)
+	connS.perturb = NewRand(pseed ^ 0x5a5a)
+	sm := zeroLimits(blockfetch.StateMap)
+	recv := &fpList{}
+	blocks := &fpList{}
+	done := make(chan struct{})
+	var once sync.Once
+	var server *g4Endpoint
+	cliHandler := func(m protocol.Message) error {
+		recv.add(fpBytes(m.Cbor()))
+		switch mm := m.(type) {
+		case *blockfetch.MsgBlock:
+			blocks.add(fpBytes(mm.WrappedBlock))
+		case *blockfetch.MsgBatchDone:
+			once.Do(func() { close(done) })
+		}
+		return nil
+	}
+	srvHandler := func(m protocol.Message) error {
+		if _, ok := m.(*blockfetch.MsgRequestRange); !ok {
+			return fmt.Errorf("unexpected message at server")
+		}
+		go func() {
+			r := NewRand(pseed)
+			if err := server.proto.SendMessage(blockfetch.NewMsgStartBatch()); err != nil {
+				return
+			}
+			for _, c := range contents {
+				for k := r.Intn(3); k > 0; k-- {
+					runtime.Gosched()
+				}
+				if err := server.proto.SendMessage(blockfetch.NewMsgBlock(c)); err != nil {
+					return
+				}
+			}
+			_ = server.proto.SendMessage(blockfetch.NewMsgBatchDone())
+		}()
+		return nil
+	}
+	client := newG4EndpointF(connC, protocol.ProtocolRoleClient, sm, blockfetch.StateIdle, cliHandler, "bfc", 0, blockfetch.NewMsgFromCbor)
+	server = newG4EndpointF(connS, protocol.ProtocolRoleServer, sm, blockfetch.StateIdle, srvHandler, "bfs", 0, blockfetch.NewMsgFromCbor)
+	client.start()
+	server.start()
+	var err error
+	if e := client.proto.SendMessage(blockfetch.NewMsgRequestRange(pcommon.NewPointOrigin(), pcommon.NewPointOrigin())); e != nil {
+		err = e
+	} else {
+		select {
+		case <-done:
+		case err = <-client.errCh:
+		case err = <-server.errCh:
+		}
+	}
+	client.stop()
+	server.stop()
+	return fmt.Sprintf("recv=%s blocks=%s err=%s segs=%s", recv.String(), blocks.String(), g4ErrClass(err), server.segLens())
+}
+
 // ---------------------------------------------------------------- generator
 
 func c10Size(r *Rand, tier string, allowHuge bool) int {
@@ -293,6 +386,22 @@ func genC10(r *Rand, n int, tier string, emit func(string)) {
 			// multi-MiB messages: keep the read fragmentation coarse enough to stay fast
 			planAB = Pick(r, "-", "1000,7", "65543", "4096", "8,65535")
 			planBA = planAB
+		}
+		if r.Chance(1, 6) {
+			nb := Pick(r, 1, 2, 3, 6, 12, 30)
+			if huge {
+				nb = Pick(r, 1, 2)
+			}
+			parts := []string{}
+			for k := 0; k < nb; k++ {
+				l := c10Size(r, tier, huge) - Pick(r, 0, 5, 6, 7, 8, 9)
+				if l < 0 {
+					l = 0
+				}
+				parts = append(parts, fmt.Sprintf("%d.%d", l, r.Intn(1000)))
+			}
+			emit(fmt.Sprintf("bk %s %s %d %s", planAB, planBA, r.Intn(1<<30), strings.Join(parts, " ")))
+			continue
 		}
 		if r.Chance(3, 5) {
 			nm := Pick(r, 1, 2, 3, 5, 10, 25, 45, 60, 90)
